@@ -241,8 +241,6 @@ func (c *Client) Join(ctx context.Context, room jid.JID, s *xmpp.Session, opt ..
 // presence.
 // Changing the presence type has no effect.
 func (c *Client) JoinPresence(ctx context.Context, p stanza.Presence, s *xmpp.Session, opt ...Option) (*Channel, error) {
-	c.managedM.Lock()
-
 	channel := &Channel{
 		addr:    p.To,
 		client:  c,
@@ -251,12 +249,9 @@ func (c *Client) JoinPresence(ctx context.Context, p stanza.Presence, s *xmpp.Se
 		join:   make(chan joinCtx, 1),
 		depart: make(chan struct{}, 1),
 	}
-	if c.managed == nil {
-		c.managed = make(map[string]*Channel)
-	}
-	c.managed[p.To.String()] = channel
-	c.managedM.Unlock()
 
+	// The channel is registered by its own JoinPresence, under the occupant
+	// address that is requested (which the options may change).
 	err := channel.JoinPresence(ctx, p, opt...)
 	return channel, err
 }
